@@ -191,6 +191,16 @@ theorem pa_first_approximation_spacing : ∀ r ∈ generatedPA, ∀ (p : Bool) (
     rw [abs_one] at this; linarith
   exact ⟨pa_jde_diff r _ p a1 a2, h.hgap⟩
 
+/-- "the result lies within one period of the query", first approximation: it is within
+    `P/2 + |Q| kMax² + C` of the instant `J0 + C_rate (year − Y0) P` that the linear count assigns to the query.
+    (For Mercury `C_rate · P = 365.2482` days per year against the 365.2425 of `Epoch.year`: the linear count
+    drifts ~11 days from the calendar by year 4000 and ~23 days by −2000, which is how the node passage of
+    known finding C13-mercury-nodes-beyond-one-period ends up more than a period from the query.) -/
+theorem pa_first_approximation_near_query : ∀ r ∈ generatedPA, ∀ (p : Bool) (y : ℝ), -2000 ≤ y → y ≤ 4000 →
+    |pa_jde r (pa_k r y p) p - (ofDec r.J0 + ofDec r.C * (y - ofDec r.Y0) * ofDec r.P)|
+      ≤ ofDec r.P / 2 + |ofDec r.Q| * (((r.kMax : ℚ) : ℝ) * ((r.kMax : ℚ) : ℝ)) + ((r.corrRad : ℚ) : ℝ) :=
+  fun r hr p _ h1 h2 => pa_near_query (okPA_of_ok (all_pa_ok r hr)) p h1 h2
+
 /-- As the query advances over -2000..4000 the first approximation never moves backwards. -/
 theorem pa_first_approximation_never_backwards : ∀ r ∈ generatedPA, ∀ (p : Bool) (y1 y2 : ℝ),
     -2000 ≤ y1 → y1 ≤ y2 → y2 ≤ 4000 → pa_jde r (pa_k r y1 p) p ≤ pa_jde r (pa_k r y2 p) p := by
